@@ -19,8 +19,10 @@ import models
 from engine import VAdt, VBool, VInt, VOpaque, VRef, VSeq, VStruct, VTuple, Event, base_ty
 from specutil import is_variant, run_reference, vid_of
 
-LIST_BOUND = 3
-ARGS_BOUND = 5
+import os
+THOROUGH = os.environ.get("MIRSYM_TIER") == "thorough"
+LIST_BOUND = 5 if THOROUGH else 3
+ARGS_BOUND = 6 if THOROUGH else 5
 
 
 class SpecMismatch(Exception):
